@@ -404,11 +404,11 @@ harness!(avx2vec, 66, c02_sparse_m0_r2_l63_b2_avx2, collect_sparse_body::<0, 2, 
 //@ C02 thorough 10800 scanner to exhaustion, blocks of 3 rows: matrix 2 (M=3), R=3, L=94, block 3, generic arm, threshold 1.5, background A, symbolic symbols at 4, 5, 91, 92, 93 | mem=12 | unwindset=scan::Scanner<.*Iterator>::next#0:6
 harness!(avx2vec, 98, c02_sparse_m2_r3_l94_b3_generic, collect_sparse_body::<2, 3, 94, 3, 2>(Dispatch::Generic, 1.5, 0, &[4, 5, 91, 92, 93]));
 
-//@ C02 thorough 7200 scanner to exhaustion: matrix 0 (M=2), R=1, L=4 all symbolic, threshold 1.0, AVX2 arm | mem=8 | unwindset=scan::Scanner<.*Iterator>::next#0:6
+//@ C02 thorough 7200 scanner to exhaustion: matrix 0 (M=2), R=1, L=4 all symbolic, threshold 1.0, AVX2 arm | mem=16 | unwindset=scan::Scanner<.*Iterator>::next#0:6
 harness!(avx2vec, 34, c02_tiny_m0_r1_l4_avx2, collect_sparse_body::<0, 1, 4, 256, 2>(Dispatch::Avx2, 1.0, 0, &[0, 1, 2, 3]));
-//@ C02 thorough 7200 scanner to exhaustion: matrix 3 (finite wildcard column, M=2), R=1, L=5 all symbolic, threshold 3.0, generic arm | mem=8 | unwindset=scan::Scanner<.*Iterator>::next#0:6
+//@ C02 thorough 7200 scanner to exhaustion: matrix 3 (finite wildcard column, M=2), R=1, L=5 all symbolic, threshold 3.0, generic arm | mem=16 | unwindset=scan::Scanner<.*Iterator>::next#0:6
 harness!(avx2vec, 34, c02_tiny_m3_r1_l5_generic, collect_sparse_body::<3, 1, 5, 256, 2>(Dispatch::Generic, 3.0, 0, &[0, 1, 2, 3, 4]));
-//@ C02 thorough 7200 scanner to exhaustion: matrix 0 (M=2), R=1, L=32 (full last column), symbolic symbols at 0, 1, 30, 31 on a background of T, threshold 2.0, AVX2 arm | mem=8 | unwindset=scan::Scanner<.*Iterator>::next#0:6
+//@ C02 thorough 7200 scanner to exhaustion: matrix 0 (M=2), R=1, L=32 (full last column), symbolic symbols at 0, 1, 30, 31 on a background of T, threshold 2.0, AVX2 arm | mem=16 | unwindset=scan::Scanner<.*Iterator>::next#0:6
 harness!(avx2vec, 34, c02_tiny_m0_r1_l32_avx2, collect_sparse_body::<0, 1, 32, 256, 2>(Dispatch::Avx2, 2.0, 2, &[0, 1, 30, 31]));
 
 // Control-only instances: concrete sequence content and a threshold above every score, so that
@@ -418,11 +418,11 @@ harness!(avx2vec, 34, c02_tiny_m0_r1_l32_avx2, collect_sparse_body::<0, 1, 32, 2
 // constant-fold in CBMC: even these take > 800 s (11 M SAT variables), so they are thorough-tier
 // too. The quick tier of C02 / C03 is therefore limited to the instances where scoring returns
 // early (L < M, empty sequence), which is where the panics of the unrepaired scanner were.
-//@ C02 thorough 7200 scanner control (concrete content TTT...): matrix 0 (M=2), R=2, L=64, block 2 (next block would start on the look-ahead row), threshold above every score, AVX2 arm | mem=8 | unwindset=scan::Scanner<.*Iterator>::next#0:6
+//@ C02 thorough 7200 scanner control (concrete content TTT...): matrix 0 (M=2), R=2, L=64, block 2 (next block would start on the look-ahead row), threshold above every score, AVX2 arm | mem=16 | unwindset=scan::Scanner<.*Iterator>::next#0:6
 harness!(avx2vec, 66, c02_ctl_m0_r2_l64_b2_avx2, collect_sparse_body::<0, 2, 64, 2, 2>(Dispatch::Avx2, 30.0, 2, &[]));
-//@ C02 thorough 7200 scanner control (concrete content): matrix 2 (M=3), R=3, L=90, block 2 (last block = one row + look-ahead rows), threshold above every score, generic arm | mem=8 | unwindset=scan::Scanner<.*Iterator>::next#0:6
+//@ C02 thorough 7200 scanner control (concrete content): matrix 2 (M=3), R=3, L=90, block 2 (last block = one row + look-ahead rows), threshold above every score, generic arm | mem=16 | unwindset=scan::Scanner<.*Iterator>::next#0:6
 harness!(avx2vec, 66, c02_ctl_m2_r3_l90_b2_generic, collect_sparse_body::<2, 3, 90, 2, 2>(Dispatch::Generic, 30.0, 0, &[]));
-//@ C02 thorough 7200 scanner control (concrete content): matrix 0 (M=2), R=2, L=33, block 1, one symbolic symbol at the end, threshold above every score, AVX2 arm | mem=8 | unwindset=scan::Scanner<.*Iterator>::next#0:6
+//@ C02 thorough 7200 scanner control (concrete content): matrix 0 (M=2), R=2, L=33, block 1, one symbolic symbol at the end, threshold above every score, AVX2 arm | mem=16 | unwindset=scan::Scanner<.*Iterator>::next#0:6
 harness!(avx2vec, 34, c02_ctl_m0_r2_l33_b1_avx2, collect_sparse_body::<0, 2, 33, 1, 2>(Dispatch::Avx2, 30.0, 1, &[32]));
 
 // --- C03 -------------------------------------------------------------------------------
@@ -448,13 +448,13 @@ harness!(avx2vec, 66, c03_m2_r3_l80_b2_avx2_pre0, max_body::<2, 3, 80, 2, 0>(Dis
 harness!(avx2vec, 66, c03_m1_r2_l33_b3_sse2_pre1, max_body::<1, 2, 33, 3, 1>(Dispatch::Sse2));
 //@ C03 thorough 10800 scanner max(): matrix 4 (constant rows), R=1, L=10, AVX2 arm | mem=16 | unwindset=scan::Scanner<.*Iterator>::next#0:6;scan::Scanner<.*Iterator>::max#0:6
 harness!(avx2vec, 34, c03_m4_r1_l10_b256_avx2_pre0, max_body::<4, 1, 10, 256, 0>(Dispatch::Avx2));
-//@ C03 thorough 7200 scanner max(): matrix 0 (M=2), R=1, L=4 all symbolic, threshold 1.0, AVX2 arm, no prior next() | mem=8 | unwindset=scan::Scanner<.*Iterator>::next#0:6;scan::Scanner<.*Iterator>::max#0:6
+//@ C03 thorough 7200 scanner max(): matrix 0 (M=2), R=1, L=4 all symbolic, threshold 1.0, AVX2 arm, no prior next() | mem=16 | unwindset=scan::Scanner<.*Iterator>::next#0:6;scan::Scanner<.*Iterator>::max#0:6
 harness!(avx2vec, 34, c03_tiny_m0_r1_l4_avx2_pre0, max_sparse_body::<0, 1, 4, 256, 0>(Dispatch::Avx2, 1.0, 0, &[0, 1, 2, 3]));
-//@ C03 thorough 7200 scanner max(): matrix 2 (M=3, near-ties under byte rounding), R=1, L=6 all symbolic, threshold 1.25, AVX2 arm, no prior next() | mem=8 | unwindset=scan::Scanner<.*Iterator>::next#0:6;scan::Scanner<.*Iterator>::max#0:6
+//@ C03 thorough 7200 scanner max(): matrix 2 (M=3, near-ties under byte rounding), R=1, L=6 all symbolic, threshold 1.25, AVX2 arm, no prior next() | mem=16 | unwindset=scan::Scanner<.*Iterator>::next#0:6;scan::Scanner<.*Iterator>::max#0:6
 harness!(avx2vec, 34, c03_tiny_m2_r1_l6_avx2_pre0, max_sparse_body::<2, 1, 6, 256, 0>(Dispatch::Avx2, 1.25, 0, &[0, 1, 2, 3, 4, 5]));
-//@ C03 thorough 7200 scanner max(): matrix 0 (M=2), R=1, L=5 all symbolic, threshold 2.0 (a score value: equality matters), generic arm, one prior next() | mem=8 | unwindset=scan::Scanner<.*Iterator>::next#0:6;scan::Scanner<.*Iterator>::max#0:6
+//@ C03 thorough 7200 scanner max(): matrix 0 (M=2), R=1, L=5 all symbolic, threshold 2.0 (a score value: equality matters), generic arm, one prior next() | mem=16 | unwindset=scan::Scanner<.*Iterator>::next#0:6;scan::Scanner<.*Iterator>::max#0:6
 harness!(avx2vec, 34, c03_tiny_m0_r1_l5_generic_pre1, max_sparse_body::<0, 1, 5, 256, 1>(Dispatch::Generic, 2.0, 0, &[0, 1, 2, 3, 4]));
-//@ C03 thorough 7200 scanner max() control (concrete content): matrix 0 (M=2), R=2, L=64, block 2, threshold above every score, AVX2 arm, one prior next() | mem=8 | unwindset=scan::Scanner<.*Iterator>::next#0:6;scan::Scanner<.*Iterator>::max#0:6
+//@ C03 thorough 7200 scanner max() control (concrete content): matrix 0 (M=2), R=2, L=64, block 2, threshold above every score, AVX2 arm, one prior next() | mem=16 | unwindset=scan::Scanner<.*Iterator>::next#0:6;scan::Scanner<.*Iterator>::max#0:6
 harness!(avx2vec, 66, c03_ctl_m0_r2_l64_b2_avx2_pre1, max_sparse_body::<0, 2, 64, 2, 1>(Dispatch::Avx2, 30.0, 2, &[]));
-//@ C03 thorough 7200 scanner max() control (concrete content): matrix 2 (M=3), R=3, L=90, block 2, threshold above every score, generic arm | mem=8 | unwindset=scan::Scanner<.*Iterator>::next#0:6;scan::Scanner<.*Iterator>::max#0:6
+//@ C03 thorough 7200 scanner max() control (concrete content): matrix 2 (M=3), R=3, L=90, block 2, threshold above every score, generic arm | mem=16 | unwindset=scan::Scanner<.*Iterator>::next#0:6;scan::Scanner<.*Iterator>::max#0:6
 harness!(avx2vec, 66, c03_ctl_m2_r3_l90_b2_generic_pre0, max_sparse_body::<2, 3, 90, 2, 0>(Dispatch::Generic, 30.0, 0, &[]));
